@@ -121,6 +121,11 @@ class PresenceTest(_Observer):
             ctx.oblige('pre.__presence_test.row_exists', g['Row_succ'][u.z], kind='pre')
         else:
             ctx.oblige('pre.__presence_test.pair_exists', spec.ever(g, u.z, v.z), kind='pre')
+        return VBool(self.apply_formula(interp, g, u, v, t))
+
+    def apply_formula(self, interp, g, u, v, t):
+        ctx = interp.ctx
+        removal = z3.is_true(g['ER'])
         r, n, S, E = spec.tl(g, u.z, v.z)
         b = fresh('present', Bool)
         if removal:
@@ -134,7 +139,7 @@ class PresenceTest(_Observer):
             q = z3.Int('q?ms')
             ctx.assume(z3.Implies(r != 0, z3.And(g['SKey'][m], FA([q], z3.Implies(g['SKey'][q], q <= m), [g['SKey'][q]]))), 'call')
             ctx.assume(b == z3.And(r != 0, S[0] <= t.z, t.z <= m), 'call')
-        return VBool(b)
+        return b
 
 
 class HasInteraction(_Observer):
@@ -158,6 +163,18 @@ class HasInteraction(_Observer):
         c.tnone = variant['t'] == 'none'
         c.argv = [VGraph(c.g), VNode(c.u), VNode(c.v), VNone if c.tnone else VInt(c.t)]
         return c
+
+    def apply(self, interp, g, argv, kwv):
+        """caller side: result <=> (t is None ? Ever(u,v) : P(G,u,v,t)); nothing modified"""
+        args = dict(zip(['u', 'v', 't'], argv))
+        args.update(kwv)
+        u, v, t = args['u'], args['v'], args.get('t', VNone)
+        if u.kind != 'node' or v.kind != 'node':
+            raise Undecided('has_interaction with non-node arguments')
+        if t.kind == 'none':
+            return VBool(spec.ever(g, u.z, v.z))
+        b = PresenceTest(self.cls).apply_formula(interp, g, u, v, t)
+        return VBool(z3.And(spec.ever(g, u.z, v.z), b))
 
     def finish(self, ctx, c, outcome):
         tags = ('C08',) if not c.removal else ('C01',)
@@ -249,3 +266,50 @@ def call_clause(self, got, removal=True):
 
 
 _Observer.replay_model = _observer_replay_model
+
+
+class NumberOfInteractionsPair(_Observer):
+    r"""number_of_interactions(u, v, t) (C02): requires Inv(G), u a node of G, v any node, t:int|None
+    ensures result = 1 if (t is None ? Ever(u,v) : P(G,u,v,t)) else 0; modifies nothing"""
+    props = ('C02', 'C08')
+
+    def __init__(self, cls, bound_n=None):
+        _Observer.__init__(self, cls, bound_n)
+        self.key = '%s::%s.number_of_interactions' % (self.mod, cls)
+
+    def variants(self):
+        return [{'mode': m, 't': t} for m in ('removal', 'accum') for t in ('int', 'none')]
+
+    def uses(self, eng):
+        return [PresenceTest(self.cls)]
+
+    def reads(self):
+        return [PresenceTest(self.cls).key]
+
+    def setup(self, ctx, variant):
+        c = self.base_setup(ctx, variant)
+        c.tnone = variant['t'] == 'none'
+        ctx.assume(c.g['NodeIn'][c.u])
+        c.argv = [VGraph(c.g), VNode(c.u), VNode(c.v), VNone if c.tnone else VInt(c.t)]
+        return c
+
+    def finish(self, ctx, c, outcome):
+        tags = ('C02',) if c.removal else ('C02', 'C08')
+        if outcome[0] == 'raise':
+            self.forbid(ctx, 'C02.number_of_interactions_pair.no_exception.%s' % outcome[1], tags=tags, note=outcome[2])
+            return
+        res = outcome[1]
+        if res.kind != 'int':
+            self.forbid(ctx, 'C02.number_of_interactions_pair.returns_an_int', tags=tags, note='result kind %s' % res.kind)
+            return
+        if c.tnone:
+            P = spec.ever(c.pre, c.u, c.v)
+        elif c.removal:
+            P = presence_formula(c.pre, c.u, c.v, c.t, True)
+        else:
+            m, facts = self.maxsnap_facts(ctx, c)
+            ctx.assume(z3.Implies(spec.ever(c.pre, c.u, c.v), z3.And(*facts)))
+            P = presence_formula(c.pre, c.u, c.v, c.t, False, m)
+        ctx.oblige('C02.number_of_interactions_pair.one_if_present', z3.Implies(P, res.z == 1), tags=tags)
+        ctx.oblige('C02.number_of_interactions_pair.zero_if_absent', z3.Implies(z3.Not(P), res.z == 0), tags=tags)
+        self.unchanged(ctx, c, ('C02',))
